@@ -5,7 +5,9 @@ C15 — all signature verification paths agree, with or without the pairing cach
 Property theorems only (helper lemmas live in Lemmas/BlsCache.lean).  They are about the executable
 model the driver runs (Model/BlsCache.lean): the five verifiers over the ideal BLS, the FIFO cache
 with `put` exactly as coded, and the lock-granularity thread model (`step`, `runSchedule`, `runAll`,
-`runOp`, `runHistory`).
+`runOp`, `runHistory`) of `BlsCache` as it is since the repair 601e785b: `aggregate_verify` keeps the
+local flag `invalid_key` (set for every pair whose key is the point at infinity, before the cache
+lookup) and returns `aggregate_verify_gt(sig, pairings) && !invalid_key`.
 
 Reading guide.  A *schedule* is any list of thread indices: entry `i` lets call `i` take the cache
 lock for its next atomic step (ignored when that call has returned).  `runAll w sched` executes the
@@ -126,17 +128,19 @@ theorem cache_sound_inv_or_collision (U : List Pair) (c : Cache) (hs : CacheSoun
 /-! ## transparency: the cache-assisted verdict does not depend on the cache -/
 
 /-- **Every call returns, and a cache-assisted verification returns exactly
-`aggregate_verify_gt(sig, true pairings)`** — for every sound cache (any capacity, any prior
-contents), every list of concurrent `aggregate_verify` / `update` / `evict` / `len` calls and every
-interleaving of their lock acquisitions.  The right-hand side mentions neither the cache nor the
-schedule: the verdict is independent of capacity, contents, evictions and interleaving. -/
+`aggregate_verify_gt(sig, true pairings) && !(some key is the point at infinity)`** — for every
+sound cache (any capacity, any prior contents), every list of concurrent `aggregate_verify` /
+`update` / `evict` / `len` calls and every interleaving of their lock acquisitions.  The right-hand
+side mentions neither the cache nor the schedule: the verdict is independent of capacity, contents,
+evictions and interleaving.  (That right-hand side is `aggregate_verify(sig, pairs)`:
+`gt_flag_eq_plain`, `cache_agrees_with_plain_sched`.) -/
 theorem transparent (U : List Pair) (hcf : CollisionFree U) (c : Cache) (hs : CacheSound U c)
     (calls : List Op) (hops : ∀ op ∈ calls, OpOk U op) (sched : List Nat) :
     (runAll { cache := c, threads := calls.map Thread.start } sched).threads.map (·.op) = calls ∧
     ∀ t ∈ (runAll { cache := c, threads := calls.map Thread.start } sched).threads,
       (∃ o, t.st = .done o) ∧
       ∀ ps sig, t.op = .av ps sig →
-        t.st = .done (.verdict (aggregateVerifyGt sig (ps.map Pair.pairing))) := by
+        t.st = .done (.verdict (aggregateVerifyGt sig (ps.map Pair.pairing) && !(ps.any Pair.isInf))) := by
   have hw : WorldOk U { cache := c, threads := calls.map Thread.start } := by
     refine ⟨hs, ?_⟩
     intro t ht
@@ -168,7 +172,7 @@ theorem transparent_prefix (U : List Pair) (hcf : CollisionFree U) (c : Cache) (
     (calls : List Op) (hops : ∀ op ∈ calls, OpOk U op) (sched : List Nat) :
     ∀ t ∈ (runSchedule { cache := c, threads := calls.map Thread.start } sched).threads,
       ∀ ps sig o, t.op = .av ps sig → t.st = .done o →
-        o = .verdict (aggregateVerifyGt sig (ps.map Pair.pairing)) := by
+        o = .verdict (aggregateVerifyGt sig (ps.map Pair.pairing) && !(ps.any Pair.isInf)) := by
   have hw : WorldOk U { cache := c, threads := calls.map Thread.start } := by
     refine ⟨hs, ?_⟩
     intro t ht
@@ -180,10 +184,12 @@ theorem transparent_prefix (U : List Pair) (hcf : CollisionFree U) (c : Cache) (
   exact hok ps sig hop
 
 /-- sequential form: `BlsCache::aggregate_verify` called alone on a sound cache returns
-`aggregate_verify_gt` over the true pairings and leaves the cache sound. -/
+`aggregate_verify_gt` over the true pairings, and-ed with "no key is the point at infinity", and
+leaves the cache sound (also when it returns `false` because of an infinity key: the identity
+pairing it has inserted IS the true pairing of that pair). -/
 theorem cacheVerify_transparent (U : List Pair) (hcf : CollisionFree U) (c : Cache)
     (hs : CacheSound U c) (sig : Sig) (ps : List Pair) (hU : ∀ p ∈ ps, p ∈ U) :
-    (cacheVerify c sig ps).2 = aggregateVerifyGt sig (ps.map Pair.pairing) ∧
+    (cacheVerify c sig ps).2 = (aggregateVerifyGt sig (ps.map Pair.pairing) && !(ps.any Pair.isInf)) ∧
     CacheSound U (cacheVerify c sig ps).1 := by
   have hops : ∀ op ∈ [Op.av ps sig], OpOk U op := by
     intro op hop
@@ -333,33 +339,125 @@ theorem pairing_convention (sig : Sig) (ps : List Pair) (hsig : Normal sig.terms
   intro hn
   rw [main, gt_noinf sig ps hn, aggregateVerify_spec]
 
+/-! ## the infinity key is rejected on the cache-assisted path, whatever the cache holds -/
+
+/-- **Never valid with an infinity key, every schedule.**  For EVERY cache (no soundness, no
+collision-freeness, no capacity bound assumed), every list of concurrent calls and every
+interleaving of their lock acquisitions: a `BlsCache::aggregate_verify` call whose pair list
+contains the point at infinity returns `false` (and it does return: `transparent`/`runAll_done`).
+This is the `invalid_key` flag of the repair 601e785b: it is set for every pair taken from the list,
+before the lookup, hit or miss, so no cache content can make the call accept. -/
+theorem inf_full_sched (c : Cache) (calls : List Op) (sched : List Nat) :
+    ∀ t ∈ (runAll { cache := c, threads := calls.map Thread.start } sched).threads,
+      ∀ ps sig, t.op = .av ps sig → ps.any Pair.isInf = true → t.st = .done (.verdict false) := by
+  intro t ht ps sig hop hinf
+  obtain ⟨o, ho⟩ := runAll_done _ sched t ht
+  have hok : FlagOk t := by
+    rw [runAll_eq] at ht
+    refine runSchedule_flagOk _ _ ?_ t ht
+    intro t' ht'
+    obtain ⟨op, _, rfl⟩ := List.mem_map.mp ht'
+    exact start_flagOk op
+  simp only [FlagOk, ho] at hok
+  rw [ho, hok ps sig hop hinf]
+
+/-- the same for a schedule that is cut off anywhere: such a call never returns anything but
+`false`, at any point of any interleaving, on any cache. -/
+theorem inf_full_prefix (c : Cache) (calls : List Op) (sched : List Nat) :
+    ∀ t ∈ (runSchedule { cache := c, threads := calls.map Thread.start } sched).threads,
+      ∀ ps sig o, t.op = .av ps sig → ps.any Pair.isInf = true → t.st = .done o →
+        o = .verdict false := by
+  intro t ht ps sig o hop hinf ho
+  have hok : FlagOk t := by
+    refine runSchedule_flagOk _ _ ?_ t ht
+    intro t' ht'
+    obtain ⟨op, _, rfl⟩ := List.mem_map.mp ht'
+    exact start_flagOk op
+  simp only [FlagOk, ho] at hok
+  exact hok ps sig hop hinf
+
+/-- **Never valid if any key is the point at infinity** — the cache-assisted path, called alone on
+ANY cache, with any signature: no side condition.  (Before the repair 601e785b this sentence was
+false for `BlsCache::aggregate_verify`; see `former_witness_rejected`.) -/
+theorem inf_full (c : Cache) (sig : Sig) (ps : List Pair) (hinf : ps.any Pair.isInf = true) :
+    (cacheVerify c sig ps).2 = false := by
+  have h1 : (runAll { cache := c, threads := [Op.av ps sig].map Thread.start } []).threads.map (·.op)
+      = [Op.av ps sig] := by
+    rw [runAll_eq, runSchedule_ops]; rfl
+  have h2 := inf_full_sched c [.av ps sig] []
+  simp only [List.map_cons, List.map_nil] at h1 h2
+  obtain ⟨t, ht, htop⟩ := List.map_eq_singleton_iff.mp h1
+  have hst := h2 t (by rw [ht]; exact List.mem_singleton.mpr rfl) ps sig htop hinf
+  simp only [cacheVerify, runOp, ht, List.head?_cons, Option.bind_some, Thread.out, hst]
+
+/-! ## the cache-assisted path agrees with `aggregate_verify` -/
+
+/-- what the cache-assisted path computes on a sound cache — `aggregate_verify_gt` over the true
+pairings, and-ed with "no key is the point at infinity" — is `aggregate_verify`, for EVERY pair
+list and signature (with an infinity key both sides are `false`; without, `gt_noinf`). -/
+theorem gt_flag_eq_plain (sig : Sig) (ps : List Pair) :
+    (aggregateVerifyGt sig (ps.map Pair.pairing) && !(ps.any Pair.isInf)) = aggregateVerify sig ps := by
+  cases hinf : ps.any Pair.isInf with
+  | true =>
+    rw [aggregateVerify_spec, specVerdict, hinf]
+    simp
+  | false =>
+    rw [gt_noinf sig ps (any_isInf_false.mp hinf)]
+    simp
+
+/-- **The cache-assisted path agrees with `aggregate_verify`** — for every pair list, with or
+without the infinity key (no such hypothesis), every signature, every sound cache of any capacity
+and prior contents, given that the finitely many keys in use do not collide (`CollisionFree`).
+This is the statement of the property for the pair `BlsCache::aggregate_verify` /
+`aggregate_verify`; hence the cache-assisted verdict is also the prescribed one (`specVerdict`). -/
+theorem cache_agrees_with_plain (U : List Pair) (hcf : CollisionFree U) (c : Cache)
+    (hs : CacheSound U c) (sig : Sig) (ps : List Pair) (hU : ∀ p ∈ ps, p ∈ U) :
+    (cacheVerify c sig ps).2 = aggregateVerify sig ps := by
+  rw [(cacheVerify_transparent U hcf c hs sig ps hU).1, gt_flag_eq_plain]
+
+/-- the same inside any schedule: every concurrent cache-assisted call returns, and returns what
+`aggregate_verify` returns on its input (= the prescribed verdict), whatever the other calls
+(`aggregate_verify` / `update` / `evict` / `len`) do and however the lock acquisitions interleave. -/
+theorem cache_agrees_with_plain_sched (U : List Pair) (hcf : CollisionFree U) (c : Cache)
+    (hs : CacheSound U c) (calls : List Op) (hops : ∀ op ∈ calls, OpOk U op) (sched : List Nat) :
+    ∀ t ∈ (runAll { cache := c, threads := calls.map Thread.start } sched).threads,
+      ∀ ps sig, t.op = .av ps sig →
+        t.st = .done (.verdict (aggregateVerify sig ps)) ∧
+        t.st = .done (.verdict (specVerdict sig ps)) := by
+  intro t ht ps sig hop
+  have h := ((transparent U hcf c hs calls hops sched).2 t ht).2 ps sig hop
+  rw [gt_flag_eq_plain] at h
+  exact ⟨h, by rw [h, aggregateVerify_spec]⟩
+
 /-- **All paths agree when no key is the point at infinity**: the cache-assisted path (alone or in
 any schedule, by `transparent`), `aggregate_verify`, `aggregate_verify_gt` over the true pairings and
-— for a singleton list — `verify` return the same verdict, which is the prescribed one. -/
+— for a singleton list — `verify` return the same verdict, which is the prescribed one.  (The first
+and the last two conjuncts hold with an infinity key as well: `cache_agrees_with_plain`,
+`verify_spec`, `aggregateVerify_spec`; only `aggregate_verify_gt` over precomputed pairings cannot
+see the keys and needs the hypothesis.) -/
 theorem agree_noinf (U : List Pair) (hcf : CollisionFree U) (c : Cache) (hs : CacheSound U c)
     (sig : Sig) (ps : List Pair) (hU : ∀ p ∈ ps, p ∈ U) (hn : ∀ p ∈ ps, p.pk ≠ 0) :
     (cacheVerify c sig ps).2 = aggregateVerify sig ps ∧
     aggregateVerifyGt sig (ps.map Pair.pairing) = aggregateVerify sig ps ∧
     (∀ p, ps = [p] → verify sig p = aggregateVerify sig ps) ∧
     aggregateVerify sig ps = specVerdict sig ps := by
-  refine ⟨?_, gt_noinf sig ps hn, ?_, aggregateVerify_spec sig ps⟩
-  · rw [(cacheVerify_transparent U hcf c hs sig ps hU).1, gt_noinf sig ps hn]
-  · intro p hp
-    subst hp
-    exact (verify_spec sig p).1
+  refine ⟨cache_agrees_with_plain U hcf c hs sig ps hU, gt_noinf sig ps hn, ?_,
+    aggregateVerify_spec sig ps⟩
+  intro p hp
+  subst hp
+  exact (verify_spec sig p).1
 
 /-- the same inside any schedule: with no infinity key every concurrent cache-assisted call returns
-the prescribed verdict -/
+the prescribed verdict (without the hypothesis too: `cache_agrees_with_plain_sched`) -/
 theorem agree_noinf_sched (U : List Pair) (hcf : CollisionFree U) (c : Cache) (hs : CacheSound U c)
     (calls : List Op) (hops : ∀ op ∈ calls, OpOk U op) (sched : List Nat) :
     ∀ t ∈ (runAll { cache := c, threads := calls.map Thread.start } sched).threads,
       ∀ ps sig, t.op = .av ps sig → (∀ p ∈ ps, p.pk ≠ 0) →
         t.st = .done (.verdict (specVerdict sig ps)) := by
-  intro t ht ps sig hop hn
-  rw [((transparent U hcf c hs calls hops sched).2 t ht).2 ps sig hop, gt_noinf sig ps hn,
-    aggregateVerify_spec]
+  intro t ht ps sig hop _
+  exact (cache_agrees_with_plain_sched U hcf c hs calls hops sched t ht ps sig hop).2
 
-/-! ## the infinity key: what holds, and what the current code violates -/
+/-! ## the infinity key on every path; the inputs that used to be accepted -/
 
 /-- the real 48-byte encoding of the point at infinity -/
 def infBytes : Bytes := 0xc0 :: List.replicate 47 0
@@ -367,53 +465,42 @@ def infBytes : Bytes := 0xc0 :: List.replicate 47 0
 /-- `(∞, "")` -/
 def infPair : Pair := { pk := 0, pkb := infBytes, msg := [] }
 
-/-- **Partial.**  With an infinity key in the list, `aggregate_verify` and `verify` return false, as
-prescribed; the cache-assisted path still returns `aggregate_verify_gt` over the true pairings —
-and `e(∞, H) = 1`, so the infinity keys simply drop out of the product instead of forcing `false`.
-Missing for the full statement: "the cache path returns false" — refuted by `inf_full_false`. -/
-theorem inf_partial (sig : Sig) (ps : List Pair) (hinf : ps.any Pair.isInf = true) :
+/-- With an infinity key in the list EVERY path that looks at the keys returns `false`, as
+prescribed: `aggregate_verify`, `verify` (singleton list) and the cache-assisted path on any cache.
+The pairing of the infinity key is the identity (`e(∞, H) = 1`), which is why the key has to be
+rejected explicitly: in the product of pairings it simply drops out. -/
+theorem inf_all_paths (sig : Sig) (ps : List Pair) (hinf : ps.any Pair.isInf = true) :
     aggregateVerify sig ps = false ∧ (∀ p, ps = [p] → verify sig p = false) ∧
-    (∀ U c, CollisionFree U → CacheSound U c → (∀ p ∈ ps, p ∈ U) →
-      (cacheVerify c sig ps).2 = aggregateVerifyGt sig (ps.map Pair.pairing)) ∧
+    (∀ c, (cacheVerify c sig ps).2 = false) ∧
+    specVerdict sig ps = false ∧
     (∀ p ∈ ps, p.pk = 0 → p.pairing = []) := by
-  have h0 : aggregateVerify sig ps = false := by
-    rw [aggregateVerify_spec, specVerdict, hinf]; rfl
-  refine ⟨h0, ?_, ?_, ?_⟩
+  have hs : specVerdict sig ps = false := by rw [specVerdict, hinf]; rfl
+  have h0 : aggregateVerify sig ps = false := by rw [aggregateVerify_spec, hs]
+  refine ⟨h0, ?_, fun c => inf_full c sig ps hinf, hs, ?_⟩
   · intro p hp
     subst hp
     rw [(verify_spec sig p).1, h0]
-  · intro U c hcf hs hU
-    exact (cacheVerify_transparent U hcf c hs sig ps hU).1
   · intro p _ hp
     simp [Pair.pairing, pair, FSum.smul, hp]
 
-/-- The full-strength statement of "never valid if any key is the point at infinity" for the
-cache-assisted path (kept visible; it is FALSE for the current code, see `inf_full_false`). -/
-def InfFull : Prop :=
-  ∀ (c : Cache) (sig : Sig) (ps : List Pair), CapOk c → CacheSound ps c →
-    ps.any Pair.isInf = true → (cacheVerify c sig ps).2 = false
-
-/-- the minimal witness (replayed on the implementation: corpus/C15.case line 1): an empty cache of
-capacity 1, the pair list `[(∞, "")]`, the default signature — the model of the CURRENT code accepts -/
-theorem inf_witness : (cacheVerify { cap := 1 } Sig.zero [infPair]).2 = true := by decide +kernel
-
-/-- the witness of DESIGN §7 in the ideal model: `[(pk, "hello"), (∞, "x")]` with `sign(sk, "hello")` -/
-theorem inf_witness2 :
-    let p : Pair := { pk := 5, pkb := 0x85 :: List.replicate 47 7, msg := [0x68, 0x65, 0x6c, 0x6c, 0x6f] }
-    let q : Pair := { pk := 0, pkb := infBytes, msg := [0x78] }
-    (cacheVerify { cap := 2 } p.sign [p, q]).2 = true ∧ aggregateVerify p.sign [p, q] = false := by
+/-- **The former witnesses are rejected.**  Before the repair 601e785b ("fix:
+BlsCache::aggregate_verify rejects the infinity (or invalid) public key")
+`BlsCache::aggregate_verify` never looked at the keys and accepted these two inputs (they were
+replayed on the implementation: corpus/C15.case line 1 and DESIGN §7): (1) an empty cache of
+capacity 1, the pair list `[(∞, "")]`, the default signature; (2) `[(pk, "hello"), (∞, "x")]` with
+`sign(sk, "hello")`.  The model of the code as it is now returns `false` on both, as
+`aggregate_verify` does — instances of `inf_full`, evaluated by the kernel on the executable model.
+The pairing of the infinity pair is still looked up / computed / inserted as before the repair, so
+the cache of (1) afterwards holds one entry (the identity pairing, which is the true pairing of that
+pair: `CacheSound` is kept). -/
+theorem former_witness_rejected :
+    (cacheVerify { cap := 1 } Sig.zero [infPair]).2 = false ∧
+    (cacheVerify { cap := 1 } Sig.zero [infPair]).1.len = 1 ∧
+    (let p : Pair := { pk := 5, pkb := 0x85 :: List.replicate 47 7, msg := [0x68, 0x65, 0x6c, 0x6c, 0x6f] }
+     let q : Pair := { pk := 0, pkb := infBytes, msg := [0x78] }
+     (cacheVerify { cap := 2 } p.sign [p, q]).2 = false ∧ aggregateVerify p.sign [p, q] = false ∧
+     (cacheVerify { cap := 2 } p.sign [p]).2 = true) := by
   decide +kernel
-
-/-- **Negation witness.**  The current code violates "never valid if any key is the point at
-infinity" on the cache-assisted path: `BlsCache::aggregate_verify` never looks at the keys, and the
-pairing of the infinity key is the identity.  This theorem is about the model of the CURRENT code;
-once repo_fix_c15.patch (return false when a key is infinity/invalid) is in /repo, the model's
-`step`/`avNext` get the same check, this witness disappears and `InfFull` becomes provable. -/
-theorem inf_full_false : ¬ InfFull := by
-  intro h
-  have := h { cap := 1 } Sig.zero [infPair] (by unfold CapOk; decide) (sound_empty _ _) (by decide)
-  rw [inf_witness] at this
-  cases this
 
 /-! ## non-vacuity of the hypotheses -/
 
@@ -426,6 +513,9 @@ example : CollisionFree
 example (U : List Pair) (n : Nat) (c : Cache) (h : Cache.new n = some c) : CacheSound U c ∧ CapOk c := by
   obtain ⟨_, hi, hc⟩ := new_ok h
   exact ⟨(by intro e he; rw [hi] at he; cases he), hc⟩
+
+/-- the hypothesis of `inf_full` is satisfiable -/
+example : [infPair].any Pair.isInf = true := by decide
 
 /-- a sound non-empty cache exists (after one verification) -/
 example : (cacheVerify { cap := 1 } (Pair.sign { pk := 5, pkb := [0x85, 1], msg := [0x61] })
